@@ -1,3 +1,7 @@
+import PallasVerif.Model.Value
+import PallasVerif.Model.ExUnits
+import PallasVerif.Model.Witness
+import PallasVerif.Model.ScriptData
 /-
   Model of the rule structure of phase-1 validation (`pallas-validate/src/phase1/*.rs`) for C38: the era validators
   `validate_byron_tx`, `validate_shelley_ma_tx`, `validate_alonzo_tx`, `validate_babbage_tx`, `validate_conway_tx` as the
@@ -8,10 +12,21 @@
     transaction size · minimum lovelace per output · output value size · network ids · minimum fee together with the
     collateral rules (count, kind, amount, annotation) · auxiliary-data hash.
 
-  The remaining rules of the validators (value preservation, execution units, witnesses — subjects of C34, C37, C35 —
-  and certificates, minting policies, script / datum / redeemer witnesses, languages, script-integrity hash,
-  well-formedness, the Byron output and witness rules) take part in the composition through their verdict
-  (`View.external`), their predicates are NOT stated here.
+  and, over the script-related observations of `ScriptView` / `DatumView` / `LangView` / `SdhView`:
+
+    minting-policy witnesses (`check_minting`) · needed scripts = provided scripts, datum hashes covered, redeemer
+    pointers exactly those of the phase-2 scripts (the three script parts of `check_witness_set`) · language
+    availability (`check_languages`) · script-integrity hash (`check_script_data_hash`: Conway through
+    `Model/ScriptData.lean` on the witness-set bytes, Alonzo / Babbage as BLAKE2b-256 of the re-encoded redeemers,
+    datums and the era's cost-model bytes) · `check_well_formedness` (empty in the code);
+
+  and by linking the rule models of C34, C37, C35: value preservation (`Model/Value.lean`; transactions with
+  certificates keep the observed verdict, the deposit terms are not in that model), execution units
+  (`Model/ExUnits.lean`), verification-key witnesses and required signers (`Model/Witness.lean`, with `hash` / `verify`
+  as fields of the view).
+
+  Still composed through their observed verdict only: Shelley-MA certificates, the Byron rules other than non-empty
+  inputs and size, and value preservation of transactions that carry certificates.
 -/
 namespace PallasVerif.Rules
 
@@ -61,6 +76,95 @@ structure CollView where
   hasAssets : Bool
   deriving Repr
 
+/-- `RedeemerPointer { tag, index }` / `RedeemersKey` (tag as its number: 0 spend, 1 mint, 2 cert, 3 reward, ..) -/
+structure Ptr where
+  tag : Nat
+  index : Nat
+  deriving DecidableEq, Repr
+
+/-- script-related observations; every hash is its hex text -/
+structure ScriptView where
+  /-- keys of the mint map (`[]` with `mintPresent = false` when there is no mint field) -/
+  mintPresent : Bool
+  mintPolicies : List String
+  /-- hashes of the witness-set scripts, in witness-set order -/
+  native : List String
+  v1 : List String
+  v2 : List String
+  v3 : List String
+  /-- Alonzo: the `plutus_script` field is `Some` -/
+  plutusFieldPresent : Bool
+  /-- hashes of the scripts carried by reference inputs (Babbage / Conway), in reference-input order -/
+  refScripts : List String
+  /-- script hashes of the script-locked spent inputs, body order -/
+  inputScripts : List String
+  /-- per spent input in sorted order: its script hash if it is script-locked -/
+  sortedInputScripts : List (Option String)
+  sortedPolicies : List String
+  /-- Conway: per withdrawal in sorted order: the script hash if the reward account is a script; `withdrawalsOk = false`
+      when a withdrawal key is not a stake address (`InputDecoding`) -/
+  sortedWithdrawalScripts : List (Option String)
+  withdrawalsOk : Bool
+  /-- the redeemer pointers of the witness set -/
+  redeemers : List Ptr
+  deriving Repr
+
+structure DatumView where
+  /-- hashes of the witness-set datums (original bytes), in order -/
+  witnessDatums : List String
+  /-- every spent input resolves to an output variant the era's datum check reads (else `InputNotInUTxO`) -/
+  inputsResolved : Bool
+  /-- datum hash of each spent input (body order), if its output carries one -/
+  inputDatumHashes : List (Option String)
+  /-- datum hashes where a supplementary datum may come from: outputs (+ collateral return, + reference inputs from Babbage on) -/
+  allowedDatumHashes : List String
+  deriving Repr
+
+structure LangView where
+  /-- `tx_languages`: 0 = PlutusV1, 1 = PlutusV2, 2 = PlutusV3 -/
+  used : List Nat
+  /-- Conway: languages with a cost model in the protocol parameters -/
+  withCostModel : List Nat
+  anyByronAddress : Bool
+  anyDatumOrScriptRef : Bool
+  anyReferenceInput : Bool
+  protMagic : Nat
+  deriving Repr
+
+structure SdhView where
+  /-- `script_data_hash` of the body -/
+  provided : Option (List UInt8)
+  /-- Conway: the witness-set bytes and the cost models of the parameters (language number, model) -/
+  witnessSetBytes : List UInt8
+  costModels : List (Nat × List Int)
+  /-- Alonzo / Babbage: `encode(redeemer)` and each datum re-encoded (`none` = field absent), the era's cost-model bytes -/
+  redeemerEnc : Option (List UInt8)
+  datumEncs : Option (List (List UInt8))
+  redeemerCount : Nat
+  costModelBytes : List UInt8
+
+structure ValueView where
+  /-- the value rule of this transaction is stated (no certificates: the deposit terms are not in `Model/Value.lean`) -/
+  modelled : Bool
+  shelleyEra : Bool
+  spent : List Value.Value
+  produced : List Value.Value
+  mint : Option Value.MA
+
+structure ExView where
+  wits : ExUnits.Wits
+  maxMem : Nat
+  maxSteps : Nat
+
+structure WitView where
+  hash : Witness.Bytes → String
+  verify : Witness.Bytes → Witness.Bytes → Witness.Bytes → Bool
+  requiredSigners : Option (List String)
+  witnesses : Option (List Witness.Wit)
+  inputViews : List (Witness.InputView String)
+  nativeOk : Bool
+  txId : Witness.Bytes
+
 structure View where
   nInputs : Nat
   nOutputs : Nat
@@ -94,6 +198,13 @@ structure View where
   auxHashPresent : Bool
   auxPresent : Bool
   auxHashMatches : Bool
+  scripts : ScriptView
+  datums : DatumView
+  langs : LangView
+  sdh : SdhView
+  value : ValueView
+  ex : ExView
+  wit : WitView
   /-- verdicts of the rules whose predicate is not stated in this model -/
   external : Rule → Bool
 
@@ -185,20 +296,197 @@ def auxData (v : View) : Bool :=
   if v.auxHashPresent && v.auxPresent then v.auxHashMatches
   else !v.auxHashPresent && !v.auxPresent
 
-/-- is the predicate of `r` stated in this model for `era`? -/
-def stated (era : Era) (r : Rule) : Bool :=
+/-! ## Minting policies, scripts, datums, redeemers -/
+
+/-- the witness-set scripts an era knows, as one list of hashes -/
+def providedScripts (era : Era) (sv : ScriptView) : List String :=
+  match era with
+  | .shelleyMA => sv.native
+  | .alonzo => sv.native ++ sv.v1
+  | .babbage => sv.native ++ sv.v1 ++ sv.v2
+  | _ => sv.native ++ sv.v1 ++ sv.v2 ++ sv.v3
+
+def refScriptsOf (era : Era) (sv : ScriptView) : List String := if eraHasRefInputs era then sv.refScripts else []
+
+/-- `check_minting`: every minted policy is the hash of a witness-set script (or of a reference script) -/
+def minting (era : Era) (v : View) : Bool :=
+  v.scripts.mintPolicies.all (fun p => (providedScripts era v.scripts).contains p || (refScriptsOf era v.scripts).contains p)
+
+/-- `check_needed_scripts*`: every script-locked input and every minted policy has its script (witness set, or reference
+    input from Babbage on), and every witness-set script that is not also a reference script is needed by one of them -/
+def neededScripts (era : Era) (v : View) : Bool :=
+  let sv := v.scripts
+  let refs := refScriptsOf era sv
+  let provided := (providedScripts era sv).filter (fun h => !refs.contains h)
+  sv.inputScripts.all (fun h => provided.contains h || refs.contains h) &&
+  sv.mintPolicies.all (fun p => provided.contains p || refs.contains p) &&
+  provided.all (fun h => sv.inputScripts.contains h || sv.mintPolicies.contains h)
+
+/-- mark the first unmarked-or-marked entry equal to `h` (`find_datum_hash` / `find_plutus_datum_in_witness_set`) -/
+def markFirst (h : String) : List (Bool × String) → Option (List (Bool × String))
+  | [] => none
+  | (f, d) :: rest => if d = h then some ((true, d) :: rest) else (markFirst h rest).map ((f, d) :: ·)
+
+def markInputs : List (Option String) → List (Bool × String) → Option (List (Bool × String))
+  | [], l => some l
+  | none :: rest, l => markInputs rest l
+  | some h :: rest, l => match markFirst h l with
+    | some l' => markInputs rest l'
+    | none => none                      -- `DatumMissing`
+
+/-- `check_datums`: each input datum hash is the hash of a witness-set datum; every other witness-set datum is announced by
+    an output (collateral return, reference input) -/
+def datumsOk (v : View) : Bool :=
+  v.datums.inputsResolved &&
+  (match markInputs v.datums.inputDatumHashes (v.datums.witnessDatums.map (fun d => (false, d))) with
+   | none => false
+   | some l => l.all (fun e => e.1 || v.datums.allowedDatumHashes.contains e.2))   -- `UnneededDatum`
+
+def isPhase2 (era : Era) (sv : ScriptView) (h : String) : Bool :=
+  match era with
+  | .babbage => sv.v1.contains h || sv.v2.contains h || sv.refScripts.contains h
+  | _ => sv.v1.contains h || sv.v2.contains h || sv.v3.contains h || sv.refScripts.contains h
+
+def indexed {α : Type} (l : List α) : List (Nat × α) := (List.range l.length).zip l
+
+/-- `mk_plutus_script_redeemer_pointers` of each era -/
+def neededPointers (era : Era) (sv : ScriptView) : List Ptr :=
+  match era with
+  | .alonzo =>
+    -- one pointer per (input, matching Plutus script) pair; nothing when the `plutus_script` field is absent
+    if !sv.plutusFieldPresent then []
+    else
+      (indexed sv.sortedInputScripts).flatMap (fun (i, o) => match o with
+        | some h => (sv.v1.filter (· == h)).map (fun _ => ⟨0, i⟩)
+        | none => []) ++
+      (if sv.mintPresent then (indexed sv.sortedPolicies).flatMap (fun (i, p) => (sv.v1.filter (· == p)).map (fun _ => ⟨1, i⟩)) else [])
+  | .babbage =>
+    -- every script-locked input (native scripts included), phase-2 minting policies
+    (indexed sv.sortedInputScripts).filterMap (fun (i, o) => o.map (fun _ => ⟨0, i⟩)) ++
+    (if sv.mintPresent then (indexed sv.sortedPolicies).filterMap (fun (i, p) => if isPhase2 era sv p then some ⟨1, i⟩ else none) else [])
+  | _ =>
+    (indexed sv.sortedInputScripts).filterMap (fun (i, o) => match o with
+      | some h => if isPhase2 era sv h then some ⟨0, i⟩ else none
+      | none => none) ++
+    (if sv.mintPresent then (indexed sv.sortedPolicies).filterMap (fun (i, p) => if isPhase2 era sv p then some ⟨1, i⟩ else none) else []) ++
+    (indexed sv.sortedWithdrawalScripts).filterMap (fun (i, o) => match o with
+      | some h => if isPhase2 era sv h then some ⟨3, i⟩ else none
+      | none => none)
+
+/-- `redeemer_pointers_coincide`: no redeemer without a script, no script without a redeemer -/
+def redeemersOk (era : Era) (v : View) : Bool :=
+  let needed := neededPointers era v.scripts
+  (era != .conway || v.scripts.withdrawalsOk) &&
+  v.scripts.redeemers.all (fun r => needed.contains r) && needed.all (fun n => v.scripts.redeemers.contains n)
+
+/-! ## The linked rule models -/
+
+def valueOk (era : Era) (v : View) : Bool :=
+  match era with
+  | .shelleyMA => Value.checkPreservationShelleyMA v.value.shelleyEra v.value.spent v.value.produced v.fee v.value.mint == .ok
+  | .conway => Value.checkPreservationConway v.value.spent v.value.produced v.fee v.value.mint == .ok
+  | _ => Value.checkPreservation v.value.spent v.value.produced v.fee v.value.mint == .ok
+
+def exUnitsEra : Era → ExUnits.Era
+  | .alonzo => .alonzo
+  | .babbage => .babbage
+  | _ => .conway
+
+def exUnitsOk (era : Era) (v : View) : Bool := ExUnits.checkTxExUnits (exUnitsEra era) v.ex.wits v.ex.maxMem v.ex.maxSteps == .ok
+
+def isOkR : Witness.R Unit → Bool
+  | .ok () => true
+  | _ => false
+
+/-- the signature part of `check_witness_set` / Shelley-MA `check_witnesses` (model of C35) -/
+def vkeyWitnessesOk (era : Era) (v : View) : Bool :=
+  match era with
+  | .shelleyMA => isOkR (Witness.checkWitnessesShelley v.wit.hash v.wit.verify v.wit.witnesses v.wit.inputViews v.wit.nativeOk v.wit.txId)
+  | _ => isOkR (Witness.checkWitnessSet v.wit.hash v.wit.verify (era == .conway) v.wit.requiredSigners v.wit.witnesses v.wit.inputViews v.wit.txId)
+
+/-- `check_witness_set` (Alonzo+): needed scripts, datums, redeemers, required signers, key witnesses;
+    Shelley-MA `check_witnesses`: key witnesses + native-script witnesses (inside the C35 model) -/
+def witnesses (era : Era) (v : View) : Bool :=
+  match era with
+  | .shelleyMA => vkeyWitnessesOk era v
+  | _ => neededScripts era v && datumsOk v && redeemersOk era v && vkeyWitnessesOk era v
+
+/-! ## Languages and the script-integrity hash -/
+
+/-- Babbage `block_langs`: PlutusV2 from the first slot of the Vasil epoch of the network -/
+def blockLangs (magic net slot : Nat) : List Nat :=
+  let start := if magic = 1 ∧ net = 0 then 3974409 else if magic = 2 ∧ net = 0 then 777610 else 72748820
+  if slot ≥ start then [0, 1] else [0]
+
+/-- `allowed_langs` / `allowed_tx_langs` -/
+def allowedLangs (era : Era) (l : LangView) : List Nat :=
+  if l.anyByronAddress then []
+  else if l.anyDatumOrScriptRef || l.anyReferenceInput then (if era = .conway then [1, 2] else [1])
+  else (if era = .conway then [0, 1, 2] else [0, 1])
+
+/-- `check_languages`: Alonzo accepts everything; Babbage wants every used language among the block's languages that are
+    also allowed; Conway rejects a language only if it has no cost model *and* is not allowed -/
+def languages (era : Era) (v : View) : Bool :=
+  match era with
+  | .babbage => v.langs.used.all (fun x => (blockLangs v.langs.protMagic v.envNetwork v.slot).contains x && (allowedLangs era v.langs).contains x)
+  | .conway => v.langs.used.all (fun x => v.langs.withCostModel.contains x || (allowedLangs era v.langs).contains x)
+  | _ => true
+
+/-- `cost_model_for_tx`: the language views of the used languages, `none` if one has no cost model -/
+def costModelForTx (used : List Nat) (models : List (Nat × List Int)) : Option ScriptData.LanguageViews :=
+  used.foldl (fun acc x => match acc, models.lookup x with
+    | some m, some cm => some (ScriptData.insert x cm m)
+    | _, _ => none) (some [])
+
+def arrayHead (n : Nat) : List UInt8 :=
+  if n < 24 then [UInt8.ofNat (0x80 + n)]
+  else if n < 256 then [0x98, UInt8.ofNat n]
+  else [0x99, UInt8.ofNat (n / 256), UInt8.ofNat (n % 256)]
+
+/-- `check_script_data_hash` -/
+def scriptDataHash (era : Era) (v : View) : Bool :=
+  let s := v.sdh
+  match era with
+  | .conway =>
+    (match s.provided with
+     | none => v.langs.used.isEmpty
+     | some p =>
+       match costModelForTx v.langs.used s.costModels with
+       | none => false
+       | some views =>
+         match ScriptData.wsBuildHash s.witnessSetBytes (some views) with
+         | some (some h) => h == p
+         | _ => false)
+  | _ =>
+    (match s.provided with
+     | none => (s.datumEncs.getD []).isEmpty && s.redeemerCount == 0
+     | some p =>
+       match s.redeemerEnc, s.datumEncs with
+       | some r, some ds =>
+         let indef := r ++ [0x9f] ++ ds.flatten ++ [0xff] ++ s.costModelBytes
+         if era = .alonzo then Blake2b.blake2b256 indef == p
+         else
+           let indef' := r ++ (if ds.isEmpty then [] else [0x9f] ++ ds.flatten ++ [0xff]) ++ s.costModelBytes
+           let defn := r ++ (if ds.isEmpty then [] else arrayHead ds.length ++ ds.flatten) ++ s.costModelBytes
+           Blake2b.blake2b256 indef' == p || Blake2b.blake2b256 defn == p
+       | _, _ => false)
+
+/-- is the predicate of `r` stated in this model for `era` (and this view)? -/
+def stated (era : Era) (v : View) (r : Rule) : Bool :=
   match era, r with
   | .byron, .insNotEmpty => true
   | .byron, .txSize => true
   | .byron, _ => false
   | _, .insNotEmpty | _, .insInUtxo | _, .validity | _, .txSize | _, .minLovelace | _, .networkId | _, .fee | _, .auxData => true
-  | .shelleyMA, .valSize => false
-  | _, .valSize => true
+  | _, .minting | _, .witnesses => true
+  | _, .preservation => v.value.modelled
+  | .shelleyMA, _ => false
+  | _, .valSize | _, .exUnits | _, .languages | _, .scriptDataHash | _, .wellFormed => true
   | _, _ => false
 
 /-- verdict of rule `r`: its stated predicate, or the verdict observed on the implementation -/
 def verdict (era : Era) (v : View) (r : Rule) : Bool :=
-  if stated era r then
+  if stated era v r then
     match r with
     | .insNotEmpty => insNotEmpty v
     | .insInUtxo => insInUtxo era v
@@ -209,6 +497,13 @@ def verdict (era : Era) (v : View) (r : Rule) : Bool :=
     | .networkId => networkId era v
     | .fee => fee era v
     | .auxData => auxData v
+    | .minting => minting era v
+    | .witnesses => witnesses era v
+    | .preservation => valueOk era v
+    | .exUnits => exUnitsOk era v
+    | .languages => languages era v
+    | .scriptDataHash => scriptDataHash era v
+    | .wellFormed => true
     | r => v.external r
   else v.external r
 
